@@ -156,6 +156,17 @@ class DynV(V):
         return f"dyn<{self.name}>"
 
 
+class MemRefV(V):
+    """a reference to one element of a buffer / array value (`slice.last_mut()`, `get_mut(i)` ...)"""
+    __slots__ = ("target", "idx")
+
+    def __init__(self, target, idx):
+        self.target, self.idx = target, idx
+
+    def __repr__(self):
+        return f"&{self.target!r}[{self.idx!r}]"
+
+
 class PyFn(V):
     """a function value implemented by the analyser: fn(state, args, expr) -> outcomes"""
     __slots__ = ("fn", "name")
